@@ -461,6 +461,9 @@ func markupGen(m map[string]string) error {
 		if id%5 == 0 {
 			mx = 6
 		}
+		if id%40 == 7 {
+			mx = 10 * maxItems // lines of hundreds of characters and dozens of markers
+		}
 		c := mkCase{ID: id, Items: g.line(mx, runner), Runner: runner}
 		if err := out.Write(c); err != nil {
 			return err
